@@ -112,7 +112,7 @@ def obligations(tier, seed):
     idl = dict(harness="h_c15.c", units=U, vin_size=512, unwind=43,
                unwindset={"init_crc16_table.0": 257, "init_crc16_table.1": 257, "idl_feed.0": 257, "h_idl_crc_table.0": 257, "h_idl_crc_table.1": 257})
     pfc = dict(harness="h_c15_pfc.c", units=U)
-    KN = {"KNOWN_IDL_FLAGS": None, "KNOWN_IDL_IMPLICIT_CI_RUN": None}
+    KN = {"KNOWN_IDL_IMPLICIT_CI_RUN": None}
     # vbi_unham16p / idl_a_demux_feed shift the (negative) Hamming error code left: GNU C defined and on the runner's ignore list, but cbmc 6.11
     # makes the failed check fatal and reports everything behind it as UNKNOWN (197 properties in idl_a_hamming) -> where undecodable Hamming
     # bytes are part of the input space the shift check is off (no data dependent shift distance in these units)
@@ -145,7 +145,7 @@ def obligations(tier, seed):
            desc="IDL-A SEQ-2 (light): two consecutive packets of ours from _vbi_idl_demux_init, CI symbolic per packet, each optionally damaged in its check word "
                 "(symbolic mask): a damaged packet is never delivered and returns FALSE, delivery continues with the next packet, deliveries in order with the sent "
                 "length and bytes (payload concrete except its first byte), only documented flag bits",
-           encodes=["vbi_idl_demux_feed", "idl_a_demux_feed", "_vbi_idl_demux_init"], defines={"KNOWN_IDL_FLAGS": None, "GAP_DAMAGE": None}, stubs=[CRC_STUB],
+           encodes=["vbi_idl_demux_feed", "idl_a_demux_feed", "_vbi_idl_demux_init"], defines={"GAP_DAMAGE": None}, stubs=[CRC_STUB],
            assumes=idl_assumes[:1] + ["payload concrete except its first byte"], bounds="2 packets; FT in {4, 0, 12, 14}",
            outside="value of the flags argument (known defect); fully symbolic payloads over 2 and 3 packets (h_idl_a_seq with NPK=2: no verdict in 1500 s, 1.1 GB - dropped)",
            grid=[dict(FT=ft, SPALEN=sp, DEP=d, NGAP=2) for (ft, sp, d) in [(4, 1, 0), (0, 0, 1), (12, 3, 0), (14, 6, 1)]],
@@ -168,20 +168,21 @@ def obligations(tier, seed):
                 [dict(FT=ft, SPALEN=sp, DEP=1, ST0=a, ST1=b, ST2=c) for (ft, sp) in [(2, 0), (10, 3), (14, 6)] for (a, b, c) in [(0, 0, 0), (1, 0, 0), (1, 1, 0), (2, 0, 0), (0, 1, 1)]],
            quick_grid=[dict(FT=6, SPALEN=2, DEP=0, ST0=1, ST1=1, ST2=0)],
            reach=["end"], flags=["--slice-formula"], timeout=900, mem_gb=6, **idl),
-        # ---- expected to be REFUTED on the current tree: genuine defects, see report ----
-        Ob("idl_a_flags_argument", func="h_idl_a_gap_flags", desc="DEFECT PROBE: two packets of ours with symbolic CI values: the flags "
+        # ---- obligations that refuted the pinned tree (genuine defects, fixed in /repo: known_findings.json "fixed"); idl_a_implicit_ci_run is an open known finding ----
+        Ob("idl_a_flags_argument", func="h_idl_a_gap_flags", desc="two packets of ours with symbolic CI values: the flags "
            "ARGUMENT of every callback equals (DATA_LOST iff a packet failed its check since the last delivery or CI is not the successor of the last delivered CI) | (DEPENDENT "
            "iff IAL bit 3); refuted: idl_demux.c:213 passes dx->flags (DATA_LOST already cleared, DEPENDENT never set) instead of the local flags",
            encodes=["idl_a_demux_feed"], stubs=[CRC_STUB], assumes=idl_assumes[:1] + ["payload concrete except its first byte"],
-           bounds="2 packets, FT=4 (CI), SPALEN=1, DEP=0 (so that only DATA_LOST can differ)", grid=[dict(FT=4, SPALEN=1, DEP=0, NGAP=2)],
-           reach=["end", "lost_after_gap"], flags=["--slice-formula"], timeout=600, mem_gb=4, **idl),
-        Ob("idl_a_first_flags", func="h_idl_a_first_flags", desc="DEFECT PROBE: demux constructed on dirty memory (vbi_idl_a_demux_new = malloc + _vbi_idl_demux_init): the first "
+           bounds="quick: 1 packet with IAL bit 3 set (DEPENDENT missing), 43 s; thorough: + 2 packets, DEP=0, so that only DATA_LOST can differ (471 s with trace run)",
+           grid=[dict(FT=4, SPALEN=1, DEP=1, NGAP=1), dict(FT=4, SPALEN=1, DEP=0, NGAP=2)], quick_grid=[dict(FT=4, SPALEN=1, DEP=1, NGAP=1)],
+           reach=["end"], flags=["--slice-formula"], timeout=900, mem_gb=4, **idl),
+        Ob("idl_a_first_flags", func="h_idl_a_first_flags", desc="demux constructed on dirty memory (vbi_idl_a_demux_new = malloc + _vbi_idl_demux_init): the first "
            "delivery carries only documented flag bits and no DATA_LOST; refuted: dx->flags is never initialised",
            encodes=["_vbi_idl_demux_init", "vbi_idl_demux_reset", "idl_a_demux_feed"], stubs=[CRC_STUB], assumes=idl_assumes,
            bounds="1 packet, FT=4, SPALEN=1", grid=[dict(FT=4, SPALEN=1, DEP=0)], flags=["--slice-formula"], timeout=600, mem_gb=4, **idl),
-        Ob("idl_a_implicit_ci_run", func="h_idl_a_seq", desc="DEFECT PROBE: idl_a_seq1 without the exclusion of 'implicit CI in {0x00,0xFF} and the first 7 user bytes equal to it': "
+        Ob("idl_a_implicit_ci_run", func="h_idl_a_seq", desc="idl_a_seq1 without the exclusion of 'implicit CI in {0x00,0xFF} and the first 7 user bytes equal to it': "
            "refuted: the demux seeds its run counter with the untransmitted implicit CI and drops the 8th user byte (or delivers the real dummy byte)",
-           encodes=["idl_a_demux_feed"], defines={"KNOWN_IDL_FLAGS": None}, stubs=[CRC_STUB], assumes=idl_assumes,
+           encodes=["idl_a_demux_feed"], defines={}, stubs=[CRC_STUB], assumes=idl_assumes,
            bounds="1 packet, FT=0, SPALEN=0", grid=[dict(FT=0, SPALEN=0, DEP=0, NPK=1)], reach=["end", "all", "crcfail"],
            flags=["--slice-formula"], timeout=600, mem_gb=4, **idl),
     ]
@@ -196,7 +197,7 @@ def obligations(tier, seed):
            "byte exact, with application id, size, page, stream; zero size blocks are not delivered; the blocks touching the lost part are dropped, delivery resumes with the first "
            "block that starts on the next page; invariant after every packet",
            encodes=["vbi_pfc_demux_feed", "_vbi_pfc_demux_decode", "_vbi_pfc_demux_init", "vbi_pfc_demux_reset", "vbi_unham8", "vbi_unham16p"],
-           defines={"KNOWN_PFC_LAST_PACKET_LOSS": None, "KNOWN_PFC_BLOCK_END_OVERREAD": None},
+           defines={},
            assumes=["every quantity that steers the demux is a grid constant (sizes, paddings, geometry, app ids, page, stream, CI, control bits, lost packet); symbolic: block bytes, "
                     "header text, unrelated packet bodies", "unrelated traffic has decodable address bytes and is not a page header (a header of another magazine ends our page in this demux: serial mode assumption)"],
            bounds="quick: 9 layouts (BS in last byte of a packet, structure header split 2+2, block ending with the packet, zero size block, block over 3 packets / 2 pages, magazine 8, "
@@ -204,24 +205,24 @@ def obligations(tier, seed):
            outside="block sizes > 128 in SEQ (2047 limit: pfc_step only); blocks after the gap on the SAME page are also discarded by this demux (waits for the next page header) - "
                    "accepted as 'damaged block discarded, delivery resumes'; loss of the last packet of a page while a block is in progress (defect, pfc_last_packet_loss)",
            grid=pfc_grid("thorough"), quick_grid=pfc_grid("quick"), reach=["end", "some"], timeout=600, mem_gb=3, **pfc_seq),
-        Ob("pfc_last_packet_loss", func="h_pfc_seq", desc="DEFECT PROBE: pfc_seq with the LAST packet of page 1 lost while a 40 byte block is in progress: refuted - the next page header "
+        Ob("pfc_last_packet_loss", func="h_pfc_seq", desc="pfc_seq with the LAST packet of page 1 lost while a 40 byte block is in progress: refuted - the next page header "
            "(CI continuous) does not notice that packet 2 never came, the block is completed with bytes of the next page and delivered corrupted",
            encodes=["vbi_pfc_demux_feed", "_vbi_pfc_demux_decode"], grid=[dict(NB=3, SZ0=5, SZ1=40, SZ2=3, DROP=2, UNREL=0)],
-           defines={"KNOWN_PFC_BLOCK_END_OVERREAD": None}, bounds="1 layout", reach=["end"], timeout=900, mem_gb=6, **pfc_seq),
-        Ob("pfc_block_end_overread", func="h_pfc_seq", desc="DEFECT PROBE: one page, one packet, one 34 byte block whose last byte is byte 41 of the packet: refuted - after the "
+           defines={}, bounds="1 layout", reach=["end"], timeout=900, mem_gb=6, **pfc_seq),
+        Ob("pfc_block_end_overread", func="h_pfc_seq", desc="one page, one packet, one 34 byte block whose last byte is byte 41 of the packet: refuted - after the "
            "callback _vbi_pfc_demux_decode falls into the filler scan with col == 42 and reads buffer[42] (pfc_demux.c:160); the byte found there decides between 'fine', a "
            "phantom block start and a reset",
-           encodes=["_vbi_pfc_demux_decode"], defines={"KNOWN_PFC_LAST_PACKET_LOSS": None}, grid=[dict(NPAGES=1, PPP=1, NB=1, SZ0=34, UNREL=0)],
+           encodes=["_vbi_pfc_demux_decode"], defines={}, grid=[dict(NPAGES=1, PPP=1, NB=1, SZ0=34, UNREL=0)],
            bounds="1 layout", reach=["end"], timeout=600, mem_gb=4, **pfc_seq),
         Ob("pfc_step", func="h_pfc_step", tier="thorough",
            desc="PFC INV-STEP: from EVERY demux state satisfying the representation invariant (ci, packet, n_packets ranges; header phase: bi+left in {0,4}; "
                 "data phase: app <= 31, size <= 2047, bi+left == size) and EVERY 42 byte packet, vbi_pfc_demux_feed stays inside the exact-size demux object (memcpy ranges, "
                 "block[2048], packet[42]), re-establishes the invariant, hands only complete blocks of 1..2047 bytes to the callback (which may return FALSE), leaves page/stream/"
                 "callback alone; packets of another magazine and packets 26..31 change nothing; undecodable address -> FALSE",
-           encodes=["vbi_pfc_demux_feed", "_vbi_pfc_demux_decode", "vbi_pfc_demux_reset"], defines={"PFC_MEMCPY_PREFIX": 4, "KNOWN_PFC_BLOCK_END_OVERREAD": None},
+           encodes=["vbi_pfc_demux_feed", "_vbi_pfc_demux_decode", "vbi_pfc_demux_reset"], defines={"PFC_MEMCPY_PREFIX": 4},
            stubs=["CBMC build: memcpy model = w_ok/r_ok range checks + copy of only the bytes that land in block[0..3] (the structure header, the only bytes ever read back); "
                   "block contents beyond are arbitrary from the start",
-                  "the packet buffer has 43 readable bytes (42 + 1 arbitrary), because of defect pfc_block_end_overread"],
+                  "the packet buffer is an exact 42 byte object (the over-read of buffer[42] found here is fixed in /repo)"],
            assumes=["representation invariant pfc_inv (established by _vbi_pfc_demux_init: asserted in pfc_seq; preserved: this obligation)"],
            bounds="one step; histories of any length by induction", unwind=43,
            unwindset={"_vbi_pfc_demux_decode.1": 19, "_vbi_pfc_demux_decode.0": 40, "c15_memcpy.0": 40, "c15_memcpy.1": 40},
